@@ -466,6 +466,30 @@ func (r *runner) runSeq(lines []string) (fail *seqFail, w *world, err error) {
 				if r.drv != nil && m != honest {
 					return mkfail("correspondence", i, "verify(honest proof) go=%s lean=%s", honest, m), w, nil
 				}
+				// instance check of the codec hypothesis of the Lean theorem proof_complete_partial, on every
+				// node of this path, for this key and two more stored keys
+				var probes []string
+				for pk := range w.hashedContent() {
+					probes = append(probes, hx([]byte(pk)))
+				}
+				sort.Strings(probes)
+				if len(probes) > 2 {
+					probes = probes[:2]
+				}
+				ps := "-"
+				if len(probes) > 0 {
+					ps = strings.Join(probes, ",")
+				}
+				if r.drv != nil {
+					m, e := r.ask(fmt.Sprintf("CODEC %s %s", hx(hk), ps))
+					if e != nil {
+						return nil, w, e
+					}
+					r.dist("codec-hypothesis-instances")
+					if m != "ok" {
+						return mkfail("correspondence", i, "the codec hypothesis of proof_complete_partial (decodeNode . encode steps like the node) fails on the path of this key: %s", m), w, nil
+					}
+				}
 				if f[0] == "T" {
 					seed := uint64(1)
 					if len(f) > 2 {
